@@ -37,6 +37,9 @@ class Check(PropertyCheck):
 
     def generate(self, rng, n, tier):
         for i in range(n):
+            if i % 20 == 7:
+                yield Scenario(["new", f"mark twins {rng.randint(0, 10**6)}"], {"accepted": 0})
+                continue
             if i % 40 == 39:
                 yield Scenario(["new", f"mark cogsingleton {rng.randint(0, 10**6)}"], {"accepted": 0})
                 continue
@@ -139,12 +142,72 @@ class Check(PropertyCheck):
                         "that has already recorded a dispatch"))
         return res
 
+    def twin_observers_oracle(self, seed):
+        """Subscribers are individuals: of two observers of the same class with the same configuration (and, for feature
+        observers, equal feature arrays) exactly the one that was unsubscribed stops being notified - for every built-in
+        observer class that may be subscribed twice, and for user subclasses."""
+        import jsl
+        from job_shop_lib.dispatching.feature_observers import (IsReadyObserver, DurationObserver, IsScheduledObserver,
+                                                                  PositionInJobObserver, RemainingOperationsObserver,
+                                                                  EarliestStartTimeObserver, IsCompletedObserver)
+        r = random.Random(seed)
+        _, jobs = gen.gen_instance(r, r.choice(["classic", "irregular", "flexible"]), max_jobs=3, max_machines=3, max_ops=3)
+        from impl import build_instance
+        inst = build_instance(jobs)
+        d = jsl.Dispatcher(inst)
+        base = r.choice([IsReadyObserver, DurationObserver, IsScheduledObserver, PositionInJobObserver,
+                         RemainingOperationsObserver, EarliestStartTimeObserver, IsCompletedObserver])
+        calls = []
+
+        def update(self, scheduled_operation):
+            calls.append((self.label, "U"))
+            return base.update(self, scheduled_operation)
+
+        def reset(self):
+            calls.append((self.label, "R"))
+            return base.reset(self)
+        cls = type("Counting" + base.__name__, (base,), {"update": update, "reset": reset, "label": None})
+        obs = []
+        for label in "abc"[:r.randint(2, 3)]:
+            o = cls(d)
+            o.label = label
+            obs.append(o)
+        other = jsl.HistoryObserver(d)
+        victim = r.randrange(1, len(obs))          # never the first of its kind
+        tr = gen.Tracker(jobs)
+        for _ in range(r.randint(0, 2)):
+            if tr.done():
+                break
+            j, p, m = gen.gen_valid_request(r, tr)
+            tr.take(j)
+            d.dispatch(inst.jobs[j][p], None if m == "none" else int(m))
+        before = list(d.subscribers)        # includes the helper observers some feature observers create for themselves
+        d.unsubscribe(obs[victim])
+        res = []
+        want_subs = [o for o in before if o is not obs[victim]]
+        if [id(o) for o in d.subscribers] != [id(o) for o in want_subs]:
+            res.append(("unsubscribe", f"{base.__name__} x{len(obs)} + history subscribed, `{obs[victim].label}` unsubscribed: "
+                        f"subscribers are now {[getattr(o, 'label', type(o).__name__) for o in d.subscribers]}"))
+        calls.clear()
+        if not tr.done():
+            j, p, m = gen.gen_valid_request(r, tr)
+            d.dispatch(inst.jobs[j][p], None if m == "none" else int(m))
+        d.reset()
+        labels = [o.label for k, o in enumerate(obs) if k != victim]
+        want_calls = ([(l, "U") for l in labels] if not tr.done() else []) + [(l, "R") for l in labels]
+        if calls != want_calls:
+            res.append(("unsubscribe", f"{base.__name__} x{len(obs)} subscribed, `{obs[victim].label}` unsubscribed, then one dispatch "
+                        f"and a reset: calls received {calls}, expected {want_calls}"))
+        return res
+
     def oracle(self, impl, scenario, index, line, out, ctx):
         """Independent bookkeeping of who must have been called, from the event list alone."""
         import impl_ext
         res = []
         if line.startswith("mark cogsingleton"):
             return self.cog_singleton_oracle(int(line.split()[2]))
+        if line.startswith("mark twins"):
+            return self.twin_observers_oracle(int(line.split()[2]))
         d = impl.dispatcher
         if d is None:
             return res
